@@ -76,12 +76,14 @@ def iter_loop(t, want_rev, want_range=None):
     return None
 
 
-def run(ctx):
+def run(ctx, ids=("R06-IDX", "R06-OPS", "R06-NOPANIC"), own=True):
+    """`ids` lets C01 register the same instances under its own rule ids (the stack built-ins are part of what pest recognises)."""
     fs = facts.load("core")
     world = nodes.World(fs, ["pest_typed"])
     repo, pest = fs["pest_typed"], fs["pest"]
-    ctx.analysed = {"crates": ["pest_typed", "pest (parser_state.rs)"]}
-    ri = ctx.rule("R06-IDX", "index normalisation (constrain_idxs, normalize_index) is pest's (sibling normal-form equality)")
+    if own:
+        ctx.analysed = {"crates": ["pest_typed", "pest (parser_state.rs)"]}
+    ri = ctx.rule(ids[0], "index normalisation (constrain_idxs, normalize_index) is pest's (sibling normal-form equality)")
     for fn in ("constrain_idxs", "normalize_index"):
         rb, pb = repo.body("pest_typed::parser_state::" + fn), pest.body("pest::parser_state::" + fn)
         if rb is None or pb is None:
@@ -95,8 +97,8 @@ def run(ctx):
             ri.violate(fn, "body differs from pest's", a.loc, "repo %s: %s\npest %s: %s" % (a.loc, a.show(), b.loc, b.show()))
     ri.require(2, "functions")
 
-    ro = ctx.rule("R06-OPS", "each stack built-in uses the right stack operation, direction, emptiness / out-of-range exit")
-    rn = ctx.rule("R06-NOPANIC", "no panic-capable site in the stack nodes except stack[range], dominated by the range checks")
+    ro = ctx.rule(ids[1], "each stack built-in uses the right stack operation, direction, emptiness / out-of-range exit")
+    rn = ctx.rule(ids[2] or "R06-NOPANIC-unused", "no panic-capable site in the stack nodes except stack[range], dominated by the range checks")
     seen = 0
     fn_ids = []
     for key, pid, cid, loc, im in world.twin_pairs():
@@ -169,6 +171,9 @@ def run(ctx):
                 seen += 1
                 ro.inst(k2, loc)
     ro.require(16, "stack node functions")
+    if not ids[2]:
+        ctx.rules.remove(rn)
+        return
     # NOPANIC: HIR scan of these functions and of the helpers they inline
     helpers = set()
     for fid in fn_ids:
